@@ -117,6 +117,16 @@ Theorem C02_step_pure : forall fr o fr' out, afrag_step fr o = (fr', out) -> fra
 Proof. exact afrag_step_pure. Qed.
 Print Assumptions C02_step_pure.
 
+(* the same one and two levels up: a MediaSegment.Encode additionally overwrites the fragments' EncOptimize, a
+   File.Encode the segments'; in box-tree mode / progressive files only mdat.LargeSize changes *)
+Theorem C02_encode_pure_segment : forall s s' r, aseg_encode s = (s', r) -> seg_fr s s'.
+Proof. exact aseg_encode_pure. Qed.
+Print Assumptions C02_encode_pure_segment.
+
+Theorem C02_encode_pure_file : forall f f' r, afile_encode f = (f', r) -> file_fr f f'.
+Proof. exact afile_encode_pure. Qed.
+Print Assumptions C02_encode_pure_file.
+
 (* ---- encoding twice, with Size / Info in between: after a successful Encode or EncodeSW the structure is
         `settled`: Encode and EncodeSW write the same bytes again, Size() is the number of bytes written, and no
         operation changes the structure any more *)
